@@ -28,7 +28,7 @@ PROP_PATTERNS = ["^x_", "^y\\d"]
 PROP_KEYS = {"^x_": ["x_a", "x_b", "x_"], "^y\\d": ["y1", "y22", "y0z"]}
 EXTRA_KEYS = ["zz", "zz1", "Q"]
 STRS = ["", "a", "b", "ab", "abc", "0", "12", "x_a", "true", "1", "é"]
-INTS = [0, 1, 2, 3, -1, 5, 10, -7]
+INTS = [0, 1, 2, 3, -1, 5, 10, -7]  # (13 is the value refused by the not13 leaf validator: only in ATOMS)
 FLOATS = [0.5, 1.5, -0.25, 2.0, 0.0, 3.75, 1.0]
 LETTERS = "abcdefgh"
 
@@ -190,6 +190,9 @@ class TypeGen:
                         self.prog["newtypes"].append(nt)
                         return {"k": "ann", "of": {"k": "newtype", "i": len(self.prog["newtypes"]) - 1}, "c": c2}
                     return {"k": "ann", "of": {"k": "ann", "of": {"k": base}, "c": c}, "c": c2}
+            if self.cfg.get("leaf_validators") and base in ("int", "str") and chance(d, 0.3):
+                # validators(...) metadata on a non-object node (runs on the deserialized value)
+                return {"k": "ann", "of": {"k": base}, "c": c or {}, "val": "not13" if base == "int" else "not_abc"}
             return {"k": "ann", "of": {"k": base}, "c": c} if c else {"k": base}
         return {"k": k}
 
@@ -586,7 +589,12 @@ def valid(draw, prog: dict, t: dict, dyn: str = "id", fuel: int = 3, c: Optional
             c2 = M.merge_constraints(t["c"], c)
         except M.Unspecified:
             c2 = t["c"]
-        return valid(draw, prog, t["of"], dyn, fuel, c2, stack)
+        d_ = valid(draw, prog, t["of"], dyn, fuel, c2, stack)
+        if t.get("val") and not _BOUNDARY[0]:
+            d_ = {13: 12, 13.0: 12.0, "abc": "ab"}.get(d_, d_) if isinstance(d_, (int, float, str)) and not isinstance(d_, bool) else d_
+        elif t.get("val") and chance(draw, 0.5):
+            d_ = 13 if t["val"] == "not13" else "abc"  # (data_for "boundary") the value the validator refuses
+        return d_
     if k == "newtype":
         nt = prog["newtypes"][t["i"]]
         try:
@@ -711,7 +719,7 @@ any_json = st.recursive(
     max_leaves=12,
 )
 
-ATOMS = [None, True, False, 0, 1, -1, 2, 3, 4, 5, 6, 1.5, 0.5, 2.0, -3, "", "a", "b", "ab", "abc", "ba", "0", "12", "1a", [], {}, [0], ["a"], {"a": 1}]
+ATOMS = [None, True, False, 0, 1, -1, 2, 3, 4, 5, 6, 13, 1.5, 0.5, 2.0, -3, "", "a", "b", "ab", "abc", "ba", "0", "12", "1a", [], {}, [0], ["a"], {"a": 1}]
 
 
 # ---------------------------------------------------------------------------------------
